@@ -40,6 +40,7 @@ type SimPipe struct {
 	BlockedOpen     bool // an OpenFile is currently blocked waiting for a writer
 	Opens           int
 	ReadsAfterClose int
+	blocking        bool // Fd() was called: the descriptor left the poller (see File.Fd)
 }
 
 // AddPipe registers a simulated FIFO under path.
@@ -123,6 +124,20 @@ func Open(name string) (*File, error) { return OpenFile(name, os.O_RDONLY, 0) }
 
 func (f *File) Name() string { return f.p.Name }
 
+// Fd models os.File.Fd: it puts the descriptor into blocking mode, i.e. takes it out of the
+// runtime poller. From then on Close can no longer interrupt a Read that is blocked in the
+// kernel (the read keeps its reference; close(2) happens when it returns).
+func (f *File) Fd() uintptr {
+	f.p.blocking = true
+	f.p.sim.Count("pipe.fd_blocking_mode")
+	return 3
+}
+
+// SetDeadline and friends exist on *os.File; FIFOs opened this way support them only while
+// pollable. They are accepted and ignored.
+func (f *File) SetReadDeadline(time.Time) error { return nil }
+func (f *File) SetDeadline(time.Time) error     { return nil }
+
 // Read implements the reader side of the FIFO.
 //
 //go:norace
@@ -199,7 +214,9 @@ func (f *File) Close() error {
 	}
 	p.closed = true
 	p.sim.Logf("pipe.closed %s", p.base)
-	p.wakeReader()
+	if !(p.blocking && p.BlockedRead) {
+		p.wakeReader()
+	}
 	p.wakeWriter()
 	return nil
 }
